@@ -122,15 +122,31 @@ func runGenCheck(o checkOpts, level string, quick, thorough genBudget, rule stri
 	transparencyCheck(ctx)
 	// listed findings: run each committed reproducer through the oracle
 	directedHits := map[string]int{}
+	type directedFailure struct {
+		k *KnownFinding
+		v *genViolation
+	}
+	var regressions []*directedFailure
+	regressionInputs := 0
 	if df := genDirected[o.id]; df != nil {
 		for _, k := range ctx.kfs {
-			if k.Property != o.id || k.Status != "known" || k.Input == nil {
+			if k.Property != o.id || k.Input == nil {
 				continue
 			}
 			dir := filepath.Join(ctx.bins.scratch, "directed")
 			os.RemoveAll(dir)
 			os.MkdirAll(dir, 0o755)
 			v := df(ctx, k.Input, dir)
+			if k.Status == "fixed" {
+				// the reproducer of a repaired defect stays as a regression input: a fixed entry
+				// suppresses nothing, so a failure is an ordinary violation
+				regressionInputs++
+				if v != nil {
+					kk := k
+					regressions = append(regressions, &directedFailure{k: &kk, v: v})
+				}
+				continue
+			}
 			if v != nil {
 				if kk := ctx.known(v); kk != nil && kk.ID == k.ID {
 					directedHits[k.ID]++
@@ -273,6 +289,24 @@ func runGenCheck(o checkOpts, level string, quick, thorough genBudget, rule stri
 	}
 	cov["known_findings_matched"] = knownHits
 	cov["known_findings_reproduced_by_directed_input"] = directedHits
+	cov["regression_inputs_of_fixed_findings_run"] = regressionInputs
+	if len(regressions) > 0 {
+		printKnown(directedHits)
+		for _, regression := range regressions {
+			rf := &GenReplayFile{Property: o.id, Violation: regression.v.Clause, Detail: "the committed reproducer of the repaired defect " + regression.k.ID + " fails again: " + regression.v.Detail,
+				Seed: o.seed, Run: -1, Directed: regression.k.Input, Decoded: map[string]any{"finding": regression.k.ID, "text": regression.k.Text}, Engine: "gensim", RepoRev: repoRev()}
+			dirR := replaysDir()
+			os.MkdirAll(dirR, 0o755)
+			path := filepath.Join(dirR, fmt.Sprintf("%s-%d-regression-%s.json", o.id, o.seed, regression.k.ID))
+			bs, _ := json.MarshalIndent(rf, "", " ")
+			os.WriteFile(path, bs, 0o644)
+			ev.Violations++
+			fmt.Printf("violation: regression input %s clause=%s: %s\n", regression.k.ID, regression.v.Clause, regression.v.Detail)
+			fmt.Printf("VIOLATION property=%s replay=%s\n", o.id, path)
+		}
+		ev.write()
+		return 1
+	}
 	if len(failing) == 0 {
 		printKnown(directedHits)
 		ev.write()
@@ -334,6 +368,7 @@ type GenReplayFile struct {
 	Engine       string              `json:"engine"`
 	RepoRev      string              `json:"repo_rev"`
 	ShrinkEvals  int                 `json:"shrink_evals"`
+	Directed     *DirectedInput      `json:"directed_input,omitempty"` // set instead of a tape when a committed regression input fails
 }
 
 // genReport minimises the failing tape (same clause must persist), confirms
@@ -400,6 +435,21 @@ func genReplay(prop, path string) int {
 	defer cleanup()
 	dir := filepath.Join(ctx.bins.scratch, "replay")
 	os.MkdirAll(dir, 0o755)
+	if rf.Directed != nil {
+		df := genDirected[prop]
+		if df == nil {
+			fmt.Fprintln(os.Stderr, "no directed oracle for", prop)
+			return 2
+		}
+		v := df(ctx, rf.Directed, dir)
+		if v == nil {
+			fmt.Println("REPLAY: property held on this input")
+			return 0
+		}
+		fmt.Printf("REPLAY: clause=%s detail=%s\n", v.Clause, v.Detail)
+		fmt.Printf("VIOLATION property=%s replay=%s\n", prop, path)
+		return 1
+	}
 	res := fn(ctx, tape.ReplaySet(0, rf.Tape), dir)
 	js, _ := json.MarshalIndent(res.Sample, "", " ")
 	fmt.Println(string(js))
